@@ -74,6 +74,14 @@ CHECKS = {
    "exhaustive flag x env x value grid on the real executables against a reference resolver; exhaustive bounded string sweep of the real parser functions",
    "Per option the grid {flag absent, flag empty, flag value} x {env unset, env empty, env value} over all listed value spellings, all pairs of options, three-option cells and hostile environment strings is run on the real binary and the vet driver against a probe module whose planted violations make every option observable; the resolved configuration must be flag > env > default and no environment value may make the tool fail. In-process, all strings of length <=4 (<=5 thorough) over an 8-symbol alphabet go through config.FromEnv / CreateFlagSet / ParseFlagsFromFlagSet against the same reference.",
    "syntactically invalid boolean FLAG values are rejected by package flag before GoGreement runs (not judged)", "2/C18"),
+ "C09": ("exploration", "E4 drvmc + E1",
+   "exhaustive over the on-disk corpus (std + module cache) on the real drivers; exhaustive near-miss x attachment-site grid in-process",
+   "Every package of the Go standard library and of the modules this repository depends on that loads offline (584; quick: 144) is analysed by both real drivers under three configurations after an independent pre-scan confirms it carries no annotation, and must yield zero diagnostics; in-process, every near-miss spelling (17 forms x 7 keywords) at every attachment site (21) in programs that contain would-be violations of every kind must yield zero diagnostics under three configurations.",
+   "corpus = what is on disk; packages needing absent modules are dropped and counted", "2/C09"),
+ "C10": ("exploration", "E4 drvmc + in-process loader",
+   "exhaustive over corpus x systematic annotation-injection patterns x configurations x drivers; exhaustive family of generated odd-placement programs",
+   "The corpus is re-analysed with annotations injected systematically on every declaration (7 patterns incl. @ignore before every statement) under default and scan-tests configurations by both real drivers (module cache copies) and in-process through packages.Load with substituted file contents (standard library), in contained worker processes; 870 generated programs place annotated items where no function encloses them, in generic code, in empty / comment-only / CRLF / BOM / very-long-line files. Oracle: no panic, internal error, analyzer error or hang (20x baseline, min. 15 min).",
+   "diagnostics themselves are not judged here; only comments are inserted (re-parsed syntax tree must be unchanged)", "2/C10"),
 }
 
 NA_REASON = "check not built yet in this round (planned, see DESIGN.md section 2)"
@@ -110,7 +118,7 @@ def main():
              "kind_free_text": "explicit-state search over declaration/statement histories; successor = history + one declaration, re-rendered and re-analysed by the real analyzers (checker.Analyze)"},
             {"name": "E2 seqmc", "path": "/verif/mc/internal/checks", "serves_properties": ["C15", "C16", "C19", "C06"],
              "kind_free_text": "exhaustive enumeration of inputs / operation sequences through the public API against a boring reference model"},
-            {"name": "E4 drvmc", "path": "/verif/mc/internal/drv", "serves_properties": ["C06", "C08", "C11", "C14", "C17", "C18"],
+            {"name": "E4 drvmc", "path": "/verif/mc/internal/drv", "serves_properties": ["C06", "C08", "C09", "C10", "C11", "C14", "C17", "C18"],
              "kind_free_text": "grid runner over the real executables (gogreement, go vet -vettool) on programs materialised in a tmpfs scratch directory; rebuilt from the working tree on every run"},
             {"name": "E3 schedmc", "path": "/verif/mc/internal/e3", "serves_properties": ["C11"],
              "kind_free_text": "hand-written controlled scheduler + DFS explorer over the go/analysis action DAG; deviation-bounded; replay of recorded choice sequences with hard error on divergence"},
